@@ -33,6 +33,49 @@ EXPLANATION = (
 ROUTING = ("Contaminant", "FalseDuplicate", "Haplotig")
 
 
+def _is_state_test(repo: Repo, cond) -> bool:
+    """`x in <obj>.<attr>` / `x not in ...` / truthiness of `<obj>.<attr>` where <attr> is a collection that some function of the
+    repository populates (.add / .append / .update / [k] = / |=): its outcome is a run-time fact that can go either way."""
+    t = cond
+    while isinstance(t, ast.UnaryOp) and isinstance(t.op, ast.Not):
+        t = t.operand
+    target = None
+    if isinstance(t, ast.Compare) and len(t.ops) == 1 and isinstance(t.ops[0], ast.In | ast.NotIn):
+        target = t.comparators[0]
+    elif isinstance(t, ast.Attribute):
+        target = t
+    if not isinstance(target, ast.Attribute):
+        return False
+    attr = target.attr
+    for f in repo.functions.values():
+        for n in walk_shallow(f.node):
+            if isinstance(n, ast.Call) and isinstance(n.func, ast.Attribute) and n.func.attr in ("add", "append", "update", "extend", "setdefault") and isinstance(n.func.value, ast.Attribute) and n.func.value.attr == attr:
+                return True
+            if isinstance(n, ast.Subscript) and isinstance(n.ctx, ast.Store) and isinstance(n.value, ast.Attribute) and n.value.attr == attr:
+                return True
+            if isinstance(n, ast.AugAssign) and isinstance(n.target, ast.Attribute) and n.target.attr == attr:
+                return True
+    return False
+
+
+def _state_only(repo, cond, env) -> bool:
+    """every operand of the (possibly compound) condition is either decided by the valuation or a test on mutable program state"""
+    from ..finite import fold_env
+    from ..fold import NotConstant
+
+    if isinstance(cond, ast.BoolOp):
+        return all(_state_only(repo, v, env) for v in cond.values)
+    if isinstance(cond, ast.UnaryOp) and isinstance(cond.op, ast.Not):
+        return _state_only(repo, cond.operand, env)
+    try:
+        fold_env(cond, env)
+        return True
+    except NotConstant:
+        return _is_state_test(repo, cond)
+    except Exception:
+        return False
+
+
 def run(repo: Repo, L: Ledger, tier: str):
     L.rule("R1", "label: single routing tag -> that tag; none -> None unless Target mode; several -> one of them")
     L.rule("R2", "destination key == tag or haplotype or None; curated == not tag")
@@ -187,10 +230,21 @@ def run(repo: Repo, L: Ledger, tier: str):
                     env[norm(n)] = {"Target"} if has_target else set()
             res = run_paths(blk.body, env, loop_iters=(0,))
             n4 += 1
-            if len(res) != 1 or res[0]["unknown_conds"]:
-                raise AnalysisError("left-over block: undecided condition")
-            got = res[0]["env"].get(f"{newv}.tag")
             want = "Contaminant" if (tm and not has_target) else None
+            if len(res) != 1 or res[0]["unknown_conds"]:
+                # a condition on *mutable program state* (a collection attribute that some reachable code populates) can be
+                # true or false at run time: each outcome is a real behaviour and must give the documented tag
+                for r in res:
+                    if not r["unknown_conds"]:
+                        continue
+                    if not all(_state_only(repo, c, r["env"]) for c, _ in r["unknown_conds"]):
+                        raise AnalysisError(f"left-over block: undecided condition '{norm(r['unknown_conds'][0][0])[:60]}'")
+                    got = r["env"].get(f"{newv}.tag")
+                    if got != want:
+                        conds = " and ".join(f"{norm(c)[:50]} is {v}" for c, v in r["unknown_conds"])
+                        bad4 = bad4 or f"Target mode={tm}, input scaffold has Target tag={has_target}: when {conds} (program state the Pretext map can produce) the left-over scaffold is tagged {got!r}, expected {want!r}"
+                continue
+            got = res[0]["env"].get(f"{newv}.tag")
             if got != want:
                 bad4 = bad4 or f"Target mode={tm}, input scaffold has Target tag={has_target}: left-over scaffold tagged {got!r}, expected {want!r}"
             added = any(isinstance(x, ast.Call) and isinstance(x.func, ast.Attribute) and x.func.attr == "add_scaffold" for _, _, n_ in res[0]["stores"] for x in [n_, *walk_shallow(n_)])
